@@ -43,7 +43,23 @@ def supports(tier):
                 yield t, ks
 
 
+BIG_KEYS = {
+    1: [(0,), (3,), (5,), (12,)],
+    2: [(0, 3), (3, 1), (2, 2), (5, 0), (1, 4), (10, 1), (1, 12)],
+    3: [(3, 0, 1), (1, 2, 2), (0, 4, 1), (2, 2, 0)],
+}
+
+
+def big_supports():
+    for t, keys in BIG_KEYS.items():
+        for size in (2, 3, 4):
+            for ks in itertools.combinations(keys, size):
+                yield t, ks
+
+
 def instances(tier, seed):
+    batch = list(big_supports())
+    yield {"kind": "jdd", "items": batch}
     batch = []
     for t, ks in supports(tier):
         batch.append((t, ks))
